@@ -68,6 +68,16 @@ def rows():
     for r, ret in enumerate(RETS):
         for k, kw in enumerate(KWARGS):
             out["g4_%d_%d" % (r, k)] = ("Summary line", [kw] if kw else [], ret)
+    # 5. three parameters (+ optionally a fourth, keyword-style one): every mask of "has prose" x every mask of "has default"
+    for pm in range(8):
+        for dm in range(8):
+            for extra in (0, 1):
+                ps = []
+                for j, (n, t, d) in enumerate((("a", "int", 5), ("b", "str", "x"), ("c", "bool", True))):
+                    ps.append((n, t, ("the %s" % n) if (pm >> j) & 1 else None, d if (dm >> j) & 1 else ABSENT))
+                if extra:
+                    ps.append(("d", "float", None if pm & 1 else "the d", ABSENT if dm & 2 else 0.5))
+                out["g5_%d_%d_%d" % (pm, dm, extra)] = ("Summary line", ps, None)
     return out
 
 
@@ -79,7 +89,7 @@ def select(tier, salt=0):
     """quick: all one-parameter rows, a third of the rest (deterministic stride); thorough: everything"""
     if tier != "quick":
         return IDS
-    return [r for n, r in enumerate(IDS) if r.startswith(("g1_", "g4_")) or (n + salt) % 5 == 0]
+    return [r for n, r in enumerate(IDS) if r.startswith(("g1_", "g4_")) or (n + salt) % 5 == 0 or (r.startswith("g5_") and (n + salt) % 2 == 0)]
 
 
 ARGPARSE_TYPES = ("int", "str", "bool", "float", "Optional[int]", "Optional[str]", "Optional[bool]", "List[str]", "Literal['np', 'tf']", "Optional[dict]")
